@@ -566,6 +566,150 @@ impl CaseSpace for OverflowPerType {
 }
 
 // ---------------------------------------------------------------------------------------
+// (K) different limits per type: the buffer holds the sum of the limits
+// ---------------------------------------------------------------------------------------
+
+/// Every type has its own limit (a rotation or the reverse of 1..=8, or the same with one type
+/// switched off); every type is filled exactly to its limit.  Nothing may be displaced, every
+/// event is delivered and released, and afterwards no class bit and no overflow bit is left.
+pub struct Capacities {
+    /// clause prefix ("C03" or "C13")
+    pub id: &'static str,
+}
+
+impl Capacities {
+    fn caps(index: usize) -> [u16; 8] {
+        let base: [u16; 8] = [1, 2, 3, 4, 5, 6, 7, 8];
+        let k = index % 16;
+        let mut c = [0u16; 8];
+        for i in 0..8 {
+            c[i] = if k < 8 { base[(i + k) % 8] } else { base[7 - ((i + k) % 8)] };
+        }
+        // second half of the index range: one type keeps no events
+        if index >= 16 {
+            c[(index - 16) % 8] = 0;
+        }
+        c
+    }
+}
+
+impl CaseSpace for Capacities {
+    fn name(&self) -> String {
+        "limits-differ-per-type".into()
+    }
+    fn seeded(&self) -> bool {
+        true
+    }
+    fn total(&self) -> usize {
+        16 + 8
+    }
+    fn run(&self, index: usize, transcript: bool) -> RunResult {
+        let mut res = RunResult::default();
+        let caps = Self::caps(index);
+        res.obs = index as u64 + 818181;
+        let clause = |k: &str| format!("{}.K{k}", self.id);
+        let cfg = OCfg { event_buf: caps, confirm_timeout_ms: TO, class_zero_octet_strings: true, ..Default::default() };
+        let mut sim = OSim::new(&cfg, 1);
+        sim.db(|db| {
+            for ty in 0..8 {
+                add_point(db, ty, 0, [EventClass::Class1, EventClass::Class2, EventClass::Class3][ty % 3]);
+            }
+        });
+        let key = format!("limits:{caps:?}");
+        let mut n = 0u64;
+        let mut expected = 0usize;
+        // interleave the types so that the last events stored belong to different types
+        let max = *caps.iter().max().unwrap() as usize;
+        for round in 0..max {
+            for ty in 0..8 {
+                if round < caps[ty] as usize {
+                    let info = sim.db(|db| update_v(db, ty, 0, n, round as u64 + 1, false));
+                    n += 1;
+                    res.transitions += 1;
+                    match info {
+                        UpdateInfo::Created(_) => expected += 1,
+                        other => {
+                            res.violation = Some(Violation::new(&clause("1"), key, format!("update {} of {} (limit {}) reported {other:?} although no type is beyond its limit", round + 1, TYPES[ty], caps[ty])));
+                            return res;
+                        }
+                    }
+                }
+            }
+        }
+        sim.take_out();
+        sim.send(&app::request(1, fc::READ, &app::class_headers(true, true, true, false)));
+        let mut got: Vec<u64> = Vec::new();
+        let mut last: Option<app::Resp> = None;
+        for _ in 0..10 {
+            let rs = responses(&mut sim);
+            if rs.is_empty() {
+                break;
+            }
+            for r in rs {
+                match carried(&r.objects) {
+                    Ok(ids) => got.extend(ids),
+                    Err(e) => {
+                        res.violation = Some(Violation::new(&clause("2"), key, e));
+                        return res;
+                    }
+                }
+                if r.con() {
+                    sim.send(&app::confirm(r.seq(), false));
+                }
+                last = Some(r);
+            }
+            if last.as_ref().map(|r| r.fin()).unwrap_or(false) {
+                break;
+            }
+        }
+        if transcript {
+            res.transcript.push(format!("limits {caps:?}: {expected} events recorded, {} delivered", got.len()));
+        }
+        let mut want: Vec<u64> = (0..n).collect();
+        want.sort();
+        let mut g = got.clone();
+        g.sort();
+        if g != want {
+            let missing: Vec<u64> = want.iter().filter(|x| !g.contains(x)).copied().collect();
+            res.violation = Some(Violation::new(&clause("2"), key, format!("{} events recorded without any discard, {} delivered; missing updates {missing:?}", want.len(), g.len())));
+            return res;
+        }
+        if let Some(r) = &last {
+            if r.iin2 & 0x08 != 0 {
+                res.violation = Some(Violation::new(&clause("3"), key, "overflow indicated although nothing was displaced".to_string()));
+                return res;
+            }
+        }
+        // everything confirmed: no class has events, nothing is offered again
+        sim.take_out();
+        sim.send(&app::request(2, fc::READ, &app::class_headers(true, true, true, false)));
+        let after = responses(&mut sim);
+        match after.last() {
+            None => {
+                res.violation = Some(Violation::new(&clause("0"), key, "READ not answered".to_string()));
+                return res;
+            }
+            Some(r) => {
+                if !r.objects.is_empty() || r.iin1 & 0x0E != 0 || r.iin2 & 0x08 != 0 {
+                    res.violation = Some(Violation::new(
+                        &clause("4"),
+                        key,
+                        format!("after every event was confirmed: response {} (IIN1 {:02X} IIN2 {:02X}, {} object octets)", app::hex(&r.raw[..4]), r.iin1, r.iin2, r.objects.len()),
+                    ));
+                    return res;
+                }
+            }
+        }
+        if let Some(f) = sim.failure() {
+            res.violation = Some(Violation::new(&format!("{}.X0", self.id), f.clone(), f));
+        }
+        res.nontrivial = true;
+        res.model_states.push(index as u64);
+        res
+    }
+}
+
+// ---------------------------------------------------------------------------------------
 // (R) release out of buffer order
 // ---------------------------------------------------------------------------------------
 
